@@ -216,6 +216,21 @@ fn check_epoch(aggs: &[AggOut], inputs: &[Input], order_known: bool, ctx: &str, 
     true
 }
 
+/// like `parsed`, without draining the sink
+fn parsed_snapshot(sink: &CountingSink, rep: &Report) -> Option<Vec<AggOut>> {
+    let mut v = vec![];
+    for a in sink.snapshot() {
+        match parse(&a, "") {
+            Ok(o) => v.push(o),
+            Err(e) => {
+                rep.violation("malformed-aggregate", json!({"error": e, "log": format!("{:?}", a.log)}));
+                return None;
+            }
+        }
+    }
+    Some(v)
+}
+
 fn parsed(sink: &CountingSink, prefix: &str, rep: &Report) -> Option<Vec<AggOut>> {
     let mut v = vec![];
     for a in sink.take() {
@@ -228,6 +243,133 @@ fn parsed(sink: &CountingSink, prefix: &str, rep: &Report) -> Option<Vec<AggOut>
         }
     }
     Some(v)
+}
+
+// ------------------------------------------------------------------------------------------
+// a hand-written key whose Hash is (legitimately) coarser than its Eq: hash-equal distinct keys
+
+mod coarse {
+    use super::*;
+    use metrique_aggregation::traits::{AggregateStrategy, Key, Merge};
+    use std::borrow::Cow;
+    use std::hash::{Hash, Hasher};
+
+    pub struct HcCall {
+        pub a: String,
+        pub b: String,
+        pub id: u64,
+        pub bytes: u64,
+    }
+
+    #[derive(Clone, PartialEq, Eq)]
+    #[metrics]
+    pub struct HcKey<'a> {
+        ka: Cow<'a, str>,
+        kb: Cow<'a, str>,
+    }
+    /// only the LENGTH of `a` is hashed: k1 == k2 still implies hash(k1) == hash(k2)
+    impl Hash for HcKey<'_> {
+        fn hash<H: Hasher>(&self, state: &mut H) {
+            self.ka.len().hash(state);
+        }
+    }
+
+    #[metrics]
+    #[derive(Default)]
+    pub struct HcMerged {
+        n: u64,
+        bytes: u64,
+        id_sum: u64,
+        id_sq: u64,
+        last_id: u64,
+    }
+
+    impl Merge for HcCall {
+        type Merged = HcMerged;
+        type MergeConfig = ();
+        fn new_merged(_: &()) -> HcMerged {
+            HcMerged::default()
+        }
+        fn merge(acc: &mut HcMerged, input: Self) {
+            acc.n += 1;
+            acc.bytes += input.bytes;
+            acc.id_sum = acc.id_sum.wrapping_add(input.id);
+            acc.id_sq = acc.id_sq.wrapping_add(input.id.wrapping_mul(input.id));
+            acc.last_id = input.id;
+        }
+    }
+
+    pub struct ByAB;
+    impl Key<HcCall> for ByAB {
+        type Key<'a> = HcKey<'a>;
+        fn from_source(s: &HcCall) -> HcKey<'_> {
+            HcKey { ka: Cow::Borrowed(&s.a), kb: Cow::Borrowed(&s.b) }
+        }
+        fn static_key<'a>(k: &HcKey<'a>) -> HcKey<'static> {
+            HcKey { ka: Cow::Owned(k.ka.clone().into_owned()), kb: Cow::Owned(k.kb.clone().into_owned()) }
+        }
+        fn static_key_matches<'a>(owned: &HcKey<'static>, borrowed: &HcKey<'a>) -> bool {
+            owned == borrowed
+        }
+    }
+    impl AggregateStrategy for HcCall {
+        type Source = HcCall;
+        type Key = ByAB;
+    }
+
+    pub fn history(rng: &mut Rng, next_id: &mut u64, rep: &Report) -> bool {
+        let out = CountingSink::new();
+        let mut agg: KeyedAggregator<HcCall, CountingSink> = KeyedAggregator::new(out.clone());
+        for epoch in 0..1 + rng.below(3) {
+            let n = rng.below(if is_miri() { 10 } else { 200 }) as usize;
+            // (a, b) -> (n, bytes, id_sum, id_sq, last)
+            let mut want: BTreeMap<(String, String), (u64, u64, u64, u64, u64)> = BTreeMap::new();
+            let na = 1 + rng.below(6);
+            let nb = 1 + rng.below(4);
+            for _ in 0..n {
+                *next_id += 1;
+                let id = *next_id;
+                // names of 1-2 distinct lengths, so most keys share a hash
+                let a = format!("{}{}", ["e", "ep"][rng.below(2) as usize], rng.below(na));
+                let b = format!("m{}", rng.below(nb));
+                let bytes = rng.below(1000);
+                let w = want.entry((a.clone(), b.clone())).or_default();
+                *w = (w.0 + 1, w.1 + bytes, w.2.wrapping_add(id), w.3.wrapping_add(id.wrapping_mul(id)), id);
+                agg.merge(HcCall { a, b, id, bytes });
+            }
+            agg.flush();
+            let mut got: BTreeMap<(String, String), (u64, u64, u64, u64, u64)> = BTreeMap::new();
+            let apps = out.take();
+            for ap in &apps {
+                let text = |name: &str| {
+                    ap.log.iter().find_map(|o| match o {
+                        Op::Value { name: n, val: Val::String(s) } if n == name => Some(s.clone()),
+                        _ => None,
+                    })
+                };
+                let key = (text("ka").unwrap_or_default(), text("kb").unwrap_or_default());
+                let f = |n: &str| ap.u64_field(n).unwrap_or(u64::MAX);
+                if got.insert(key.clone(), (f("n"), f("bytes"), f("id_sum"), f("id_sq"), f("last_id"))).is_some() {
+                    rep.violation("two-aggregates-for-one-key-in-one-flush", json!({"ctx": "hash-colliding hand-written key", "key": format!("{key:?}")}));
+                    return false;
+                }
+            }
+            if got != want {
+                let diff: Vec<String> = want.iter().filter(|(k, v)| got.get(*k) != Some(*v)).take(4).map(|(k, v)| format!("{k:?}: expected (n,bytes,id_sum,id_sq,last)={v:?} got {:?}", got.get(k))).collect();
+                let unexpected: Vec<String> = got.keys().filter(|k| !want.contains_key(*k)).take(4).map(|k| format!("{k:?}")).collect();
+                rep.violation(
+                    "hash-equal-distinct-keys-not-kept-apart",
+                    json!({"ctx": "KeyedAggregator with a hand-written Key whose Hash covers only the length of one key field (Eq covers both fields)", "epoch": epoch,
+                           "distinct_keys_merged": want.len(), "aggregates_emitted": apps.len(), "wrong_or_missing": diff, "unexpected_keys": unexpected}),
+                );
+                return false;
+            }
+            rep.count("inputs_merged", n as u64);
+            rep.count("aggregates_checked", apps.len() as u64);
+            rep.count("hash_colliding_keys_checked", want.len() as u64);
+        }
+        true
+    }
 }
 
 // ------------------------------------------------------------------------------------------
@@ -373,10 +515,19 @@ struct Observed<I> {
     inner: I,
     flushes: Arc<AtomicU64>,
     dropped: Arc<AtomicBool>,
+    /// per mille of merges that take a few microseconds longer (the worker falls behind its queue)
+    slow_pm: u64,
+    n: u64,
 }
 impl<I: AggregateSink<ClosedCall>> AggregateSink<ClosedCall> for Observed<I> {
     fn merge(&mut self, entry: ClosedCall) {
         self.inner.merge(entry);
+        self.n = self.n.wrapping_mul(6364136223846793005).wrapping_add(1442695040888963407);
+        if (self.n >> 33) % 1000 < self.slow_pm && !is_miri() {
+            for _ in 0..4000 {
+                std::hint::spin_loop();
+            }
+        }
         progress_tick();
     }
 }
@@ -396,13 +547,18 @@ fn worker_history(rng: &mut Rng, next_id: &mut u64, rep: &Report) -> bool {
     let out = CountingSink::new();
     let flushes = Arc::new(AtomicU64::new(0));
     let dropped = Arc::new(AtomicBool::new(false));
-    let inner = Observed { inner: KeyedAggregator::<Call, CountingSink>::new(out.clone()), flushes: flushes.clone(), dropped: dropped.clone() };
+    let slow_pm = *rng.pick(&[0u64, 0, 50, 500]);
+    let inner = Observed { inner: KeyedAggregator::<Call, CountingSink>::new(out.clone()), flushes: flushes.clone(), dropped: dropped.clone(), slow_pm, n: rng.next_u64() };
     let interval = Duration::from_micros(*rng.pick(&[1u64, 200, 2_000, 20_000, 3_600_000_000]));
     let sink = WorkerSink::new(inner, interval);
     let producers = 1 + rng.usize_below(if is_miri() { 2 } else { 8 });
     let per = 1 + rng.usize_below(if is_miri() { 4 } else { 300 });
     let all: Vec<Vec<Input>> = (0..producers).map(|_| gen_inputs(rng, per, next_id)).collect();
-    let ctx = format!("WorkerSink producers={producers} per={per} interval={interval:?}");
+    // producers also request flushes themselves (per mille of their sends), concurrently with each other
+    let own_flush_pm = *rng.pick(&[0u64, 20, 150]);
+    let ctx = format!("WorkerSink producers={producers} per={per} interval={interval:?} slow_merges_pm={slow_pm} producer_flush_pm={own_flush_pm}");
+    // (producer, number of its own sends that had returned before its flush request, aggregates appended when its flush had completed)
+    let own_barriers: Arc<std::sync::Mutex<Vec<(usize, usize, usize)>>> = Default::default();
     let returned: Arc<Vec<AtomicU64>> = Arc::new((0..producers).map(|_| AtomicU64::new(0)).collect());
     let barrier = Arc::new(Barrier::new(producers + 1));
     let use_guards = rng.bool();
@@ -411,10 +567,15 @@ fn worker_history(rng: &mut Rng, next_id: &mut u64, rep: &Report) -> bool {
         .cloned()
         .enumerate()
         .map(|(p, inputs)| {
-            let (sink, returned, barrier) = (sink.clone(), returned.clone(), barrier.clone());
+            let (sink, returned, barrier, own_barriers, out) = (sink.clone(), returned.clone(), barrier.clone(), own_barriers.clone(), out.clone());
+            let mut prng = Rng::derive(rng.next_u64(), p as u64);
             std::thread::spawn(move || {
                 barrier.wait();
                 for (k, i) in inputs.iter().enumerate() {
+                    if prng.below(1000) < own_flush_pm {
+                        block_on(sink.flush());
+                        own_barriers.lock().unwrap().push((p, k, out.count()));
+                    }
                     if use_guards && k % 3 == 0 {
                         drop(i.call().close_and_merge(sink.clone()));
                     } else {
@@ -444,8 +605,8 @@ fn worker_history(rng: &mut Rng, next_id: &mut u64, rep: &Report) -> bool {
             return false;
         }
         let _ = t.join();
-        let Some(mut aggs) = parsed(&out, "", rep) else { return false };
-        emitted.append(&mut aggs);
+        let Some(aggs) = parsed_snapshot(&out, rep) else { return false };
+        emitted = aggs;
         let have: HashSet<u64> = emitted.iter().flat_map(|a| a.lats.iter().map(|l| l.0)).collect();
         for (p, n) in snap.iter().enumerate() {
             for i in &all[p][..*n as usize] {
@@ -475,8 +636,31 @@ fn worker_history(rng: &mut Rng, next_id: &mut u64, rep: &Report) -> bool {
         );
         return false;
     }
-    let Some(mut aggs) = parsed(&out, "", rep) else { return false };
-    emitted.append(&mut aggs);
+    let Some(aggs) = parsed_snapshot(&out, rep) else { return false };
+    emitted = aggs;
+    // flushes requested by the producers themselves, concurrently: same barrier
+    {
+        let mut pos: HashMap<u64, usize> = HashMap::new();
+        for (ai, a) in emitted.iter().enumerate() {
+            for (v, _) in &a.lats {
+                pos.entry(*v).or_insert(ai);
+            }
+        }
+        for (p, k, count_after) in own_barriers.lock().unwrap().iter() {
+            for i in &all[*p][..*k] {
+                if !pos.get(&i.id).is_some_and(|ai| ai < count_after) {
+                    rep.violation(
+                        "flush-completed-before-earlier-input-emitted",
+                        json!({"ctx": ctx, "what": "a producer's own flush().await returned, but an input it had sent before requesting the flush was in no aggregate emitted by then (other producers were flushing concurrently)",
+                               "producer": p, "input_id": i.id, "sends_before_request": k, "aggregates_emitted_at_completion": count_after, "input_emitted_in_aggregate_number": pos.get(&i.id)}),
+                    );
+                    return false;
+                }
+            }
+            rep.count("worker_concurrent_flush_barriers_checked", 1);
+        }
+    }
+    let _ = out.take();
     // conservation over the whole history: every input in exactly one aggregate, the one with its key
     let mut where_is: HashMap<u64, usize> = HashMap::new();
     for (ai, a) in emitted.iter().enumerate() {
@@ -533,7 +717,8 @@ fn main() {
          KeyedAggregator (by value and by ref, several flush epochs), TeeSink (by-ref + owned branch, with non_aggregate), embedded Aggregate<T> and MutexSink<Aggregate<T>> \
          with merge-on-drop guards dropped in random order, WorkerSink with 1-8 producer threads, flush() barriers in between and drop of the last handle; oracle: one aggregate \
          per key and flush, every input id in exactly one aggregate (its key's), sum = sum of exactly those inputs, keep-last among them (= the last one when the order is known), \
-         flush barrier, worker inner dropped after the last handle. distinct = distinct (sink kind, sizes, key multiplicities)",
+         flush barrier (requests from a controller thread and, concurrently, from the producers themselves, with a worker that sometimes lags), worker inner dropped after the last handle; \
+         plus a hand-written Key whose Hash is coarser than its Eq (hash-equal distinct keys must stay apart). distinct = distinct (sink kind, sizes, key multiplicities)",
     );
     let tiny = is_miri() || args.get_u64("tiny", 0) == 1;
     let budget = Duration::from_secs(args.get_u64("secs", args.by_tier(10, 120)));
@@ -551,9 +736,10 @@ fn main() {
                     rounds += 1;
                     rep.eval();
                     let before = next_id;
-                    let kind = rounds % 4;
+                    let kind = rounds % 5;
                     let ok = match kind {
                         0 => direct_history(&mut rng, &mut next_id, rep),
+                        4 => coarse::history(&mut rng, &mut next_id, rep),
                         1 => tee_history(&mut rng, &mut next_id, rep),
                         2 => embedded_history(&mut rng, &mut next_id, rep),
                         _ => worker_history(&mut rng, &mut next_id, rep),
@@ -563,10 +749,10 @@ fn main() {
                     }
                     rep.distinct(Fnv::new().u64(kind).u64(next_id - before).u64(rng.next_u64() % 64).finish());
                     if rep.want_sample() && rounds % 50 == 3 {
-                        let kind_name = ["KeyedAggregator", "TeeSink", "embedded/MutexSink", "WorkerSink"][kind as usize];
+                        let kind_name = ["KeyedAggregator", "TeeSink", "embedded/MutexSink", "WorkerSink", "KeyedAggregator with hash-colliding keys"][kind as usize];
                         rep.sample(|| json!({"kind": kind_name, "inputs": next_id - before}));
                     }
-                    if tiny && rounds >= 4 {
+                    if tiny && rounds >= 5 {
                         break;
                     }
                 }
